@@ -35,7 +35,7 @@ SHARD_TIMEOUT = {"quick": 1700, "thorough": 5 * 3600}
 
 def gen_cases(tier, seed):
     rng = np.random.default_rng(seed)
-    n_cases = 48 if tier == "quick" else 900
+    n_cases = 48 if tier == "quick" else 480
     cases = []
     for i in range(n_cases):
         basis = "xy" if i % 4 == 3 else "ising"
